@@ -14,7 +14,8 @@ Set Warnings "-notation-overridden,-ambiguous-paths".
 From mathcomp Require Import all_ssreflect all_algebra all_real_closed.
 From mathcomp Require Import ssrZ.
 Set Warnings "notation-overridden,ambiguous-paths".
-From LP Require Import UPolySpec RootIsoProofs.
+From LP Require Import UPolySpec RootIsoProofs SturmItv.
+From LP Require Import Scalar RefAlg RefAlgSpec RefAlgValid.
 Import GRing.Theory Num.Theory.
 Local Open Scope ring_scope.
 
@@ -146,6 +147,93 @@ Theorem C06_count_end_rule_cond : forall (R : rcfType) (S : list (list Z)),
     lp_count_roots_gen true S (Some J) = Z.of_nat (count (@in_qitv R J) (rootsR (PR R (List.hd [::] S)))).
 Proof. exact lp_count_roots_repaired_cond. Qed.
 Print Assumptions C06_count_end_rule_cond.
+
+(* ---- Sturm's theorem at FINITE end points with zero skipping, for the shared reference count_roots_oc.
+   The only hypothesis on the chain: its LAST member (gcd(f, f') up to a constant) does not vanish at the end
+   points.  Inner members may vanish at a or b (their neighbours then have opposite signs), f itself may vanish
+   at a or b as long as the root is simple.  b is counted when it is a root, a is not: the interval is (a, b]. *)
+Theorem C06_count_interval : forall (R : rcfType) (f : list Z) (an ad bn bd : Z), ~~ pis_zero f ->
+  (0 < ad)%R -> (0 < bd)%R -> QR R an ad < QR R bn bd ->
+  psgn_at_rat (last [::] (sturm_chain f)) an ad != 0 ->
+  psgn_at_rat (last [::] (sturm_chain f)) bn bd != 0 ->
+  count_roots_oc f (Fin an ad) (Fin bn bd) = size [seq x <- rootsR (PR R f) | QR R an ad < x <= QR R bn bd].
+Proof. exact count_roots_oc_fin. Qed.
+Print Assumptions C06_count_interval.
+
+(* sufficient: f(a) <> 0 and f(b) <> 0 (any f <> 0, multiple roots allowed strictly inside) *)
+Theorem C06_count_interval_nonroot_ends : forall (R : rcfType) (f : list Z) (an ad bn bd : Z), ~~ pis_zero f ->
+  (0 < ad)%R -> (0 < bd)%R -> QR R an ad < QR R bn bd ->
+  psgn_at_rat f an ad != 0 -> psgn_at_rat f bn bd != 0 ->
+  count_roots_oc f (Fin an ad) (Fin bn bd) = size [seq x <- rootsR (PR R f) | QR R an ad < x <= QR R bn bd].
+Proof. exact count_roots_oc_fin_nonroot. Qed.
+Print Assumptions C06_count_interval_nonroot_ends.
+
+(* sufficient: f has no multiple real root (e.g. f = psqfree g); then NO condition at the end points *)
+Theorem C06_count_interval_simple_roots : forall (R : rcfType) (f : list Z) (an ad bn bd : Z), ~~ pis_zero f ->
+  (forall x : R, root (PR R f) x -> ~~ root (PR R f)^`() x) ->
+  (0 < ad)%R -> (0 < bd)%R -> QR R an ad < QR R bn bd ->
+  count_roots_oc f (Fin an ad) (Fin bn bd) = size [seq x <- rootsR (PR R f) | QR R an ad < x <= QR R bn bd].
+Proof. exact count_roots_oc_fin_simple. Qed.
+Print Assumptions C06_count_interval_simple_roots.
+
+(* half lines *)
+Theorem C06_count_minf : forall (R : rcfType) (f : list Z) (bn bd : Z), ~~ pis_zero f -> (0 < bd)%R ->
+  psgn_at_rat (last [::] (sturm_chain f)) bn bd != 0 ->
+  count_roots_oc f MInf (Fin bn bd) = size [seq x <- rootsR (PR R f) | x <= QR R bn bd].
+Proof. exact count_roots_oc_minf. Qed.
+Print Assumptions C06_count_minf.
+
+Theorem C06_count_pinf : forall (R : rcfType) (f : list Z) (an ad : Z), ~~ pis_zero f -> (0 < ad)%R ->
+  psgn_at_rat (last [::] (sturm_chain f)) an ad != 0 ->
+  count_roots_oc f (Fin an ad) PInf = size [seq x <- rootsR (PR R f) | QR R an ad < x].
+Proof. exact count_roots_oc_pinf. Qed.
+Print Assumptions C06_count_pinf.
+
+(* libpoly's OWN interval count (faithful repaired model of sturm_seqence_count_roots with its own
+   zero-skipping sign-change counter and max_changes cut-off, on its own Sturm sequence of a non-constant f):
+   the number of distinct real roots of f in J for all four open/closed combinations of the ends, whenever the
+   last member of the sequence does not vanish at the two ends (always the case for a square-free factor).
+   This discharges the premise of C06_count_end_rule_cond for the sequences libpoly actually builds. *)
+Theorem C06_libpoly_count_interval : forall (R : rcfType) (f : list Z) (J : ri_itv), (1 < size (PR R f))%N ->
+  (0 < qlo_d J)%R -> (0 < qhi_d J)%R -> QR R (qlo_n J) (qlo_d J) < QR R (qhi_n J) (qhi_d J) ->
+  psgn_at_rat (last [::] (lp_sturm_sequence f)) (qlo_n J) (qlo_d J) != 0 ->
+  psgn_at_rat (last [::] (lp_sturm_sequence f)) (qhi_n J) (qhi_d J) != 0 ->
+  lp_count_roots_gen true (lp_sturm_sequence f) (Some J) = Z.of_nat (count (@in_qitv R J) (rootsR (PR R f))).
+Proof. exact lp_count_roots_sturm. Qed.
+Print Assumptions C06_libpoly_count_interval.
+
+Theorem C06_libpoly_count_interval_nonroot_ends : forall (R : rcfType) (f : list Z) (J : ri_itv),
+  (1 < size (PR R f))%N ->
+  (0 < qlo_d J)%R -> (0 < qhi_d J)%R -> QR R (qlo_n J) (qlo_d J) < QR R (qhi_n J) (qhi_d J) ->
+  psgn_at_rat f (qlo_n J) (qlo_d J) != 0 -> psgn_at_rat f (qhi_n J) (qhi_d J) != 0 ->
+  lp_count_roots_gen true (lp_sturm_sequence f) (Some J) = Z.of_nat (count (@in_qitv R J) (rootsR (PR R f))).
+Proof. exact lp_count_roots_sturm_nonroot. Qed.
+Print Assumptions C06_libpoly_count_interval_nonroot_ends.
+
+(* the reference square-free part: non-zero, its real roots are roots of p, and they are SIMPLE
+   (gcd correctness lifted to R[x], exact division complete) *)
+Theorem C06_psqfree_simple_roots : forall (R : rcfType) (p : list Z), Poly p != 0 ->
+  [/\ PR R (psqfree p) != 0,
+      forall x : R, root (PR R (psqfree p)) x -> root (PR R p) x
+    & forall x : R, root (PR R (psqfree p)) x -> \mu_x (PR R (psqfree p)) = 1%N].
+Proof. exact psqfree_spec. Qed.
+Print Assumptions C06_psqfree_simple_roots.
+
+(* a VALID reference algebraic number (RefAlg.rn_valid: canonical ends, lo < hi, p <> 0, p(lo) <> 0 <> p(hi),
+   count_open (psqfree p) lo hi = 1) DENOTES a real: unique root of psqfree p in (lo, hi) with a sign change *)
+Theorem C06_rn_valid_denotes : forall (R : rcfType) (x : rnum), rn_valid x = true ->
+  exists v : R, rn_denotes (rn_norm x) v.
+Proof. exact rn_valid_denotes. Qed.
+Print Assumptions C06_rn_valid_denotes.
+
+(* the interval count in the form consumed by the reference arithmetic on algebraic numbers
+   (RefAlgArith.count_open_correct_premise, which additionally assumes coprimep (pr r) (pr r)' - not needed) *)
+Theorem C06_count_open_correct : forall (R : rcfType) (r : list Z) (l h : Z * Z),
+  qpos l -> qpos h -> (qr l < qr h :> R) -> Poly r != 0 ->
+  ((pr r).[qr l] != 0 :> R) -> ((pr r).[qr h] != 0 :> R) ->
+  count_open r l h = size (roots (pr r : {poly R}) (qr l) (qr h)).
+Proof. exact count_open_correct. Qed.
+Print Assumptions C06_count_open_correct.
 
 (* ---- what is NOT proved (kept as statements so that the gap is visible) *)
 
